@@ -318,7 +318,7 @@ def apply_action(st, act):
 # ---------------------------------------------------------------------------------------
 # the observable surface, compared in every state
 # ---------------------------------------------------------------------------------------
-PROBE_NOTES = [(n, o) for o in (2, 3, 4, 5, 6, 7) for n in ("C", "D#", "Eb", "E", "G", "B", "B#", "Cb", "F##", "Abb")]
+PROBE_NOTES = [(n, o) for o in (3, 4, 5, 6) for n in ("C", "Eb", "E", "G", "B#", "Cb")]
 _PROBES = []
 
 
@@ -354,6 +354,19 @@ def check_content(nc, ref, S, where=""):
         if g is not (p in present):
             S.problem(where + "%r in container" % (note,), p in present, g)
             break
+    if got:
+        # state-dependent probes: the extremes, their semitone and octave neighbours, respelled
+        for q in (ps[0], ps[0] - 1, ps[-1], ps[-1] + 1, ps[-1] + 12, ps[0] - 12):
+            probe = Note("C", 0)
+            probe.octave, probe.name = q // 12, ("C", "Dbb", "D", "Eb", "Fb", "E#", "F#", "G", "Ab", "A", "A#", "Cb")[q % 12]
+            if q % 12 == 11:
+                probe.octave += 1
+            if R.pitch((probe.name, probe.octave)) != q:
+                raise engine.HarnessError("probe spelling")
+            g = probe in nc
+            if g is not (q in present):
+                S.problem(where + "%r in container" % (probe,), q in present, g)
+                break
     # equality: identical content / different pitch sets
     same = container_of(ref.notes)
     if not (nc == same) or (nc != same):
